@@ -316,9 +316,40 @@ def module_rules(F, res):
            len(starts) == 1 and all(m.dominates(starts[0][0], b) for b, t in m.calls()), where=m.loc(), how="%d start_node" % len(starts))
 
 
+def emitter(F):
+    """the callable build_tree uses to copy raw tokens into the green tree: its closure, or a function it calls, that
+    calls GreenNodeBuilder::token"""
+    c = [p for p in F.with_helpers(BT, depth=1) if p != BT and F.fns[p].blocks and
+         any((callee(t) or "").endswith("GreenNodeBuilder::token") for b, t in F.fns[p].calls())]
+    return c[0] if len(c) == 1 else None
+
+
 def build_tree_rules(F, res):
-    bt = F.fn(BT)
+    from lib import inline as IL
+    EATP = emitter(F)
+    if EATP is None:
+        res.anchor_missing("L7", "the one closure/function of build_tree that calls GreenNodeBuilder::token")
+        return
+    et0 = F.fn(EATP)
+    is_clos = et0.kind == "Closure"
+
+    def counts_runs(p):
+        f_ = F.fns.get(p)
+        return p != EATP and p.startswith("syntax::parser::") and f_ is not None and \
+            any((callee_def(t) or "").endswith("Iterator::count") for b, t in f_.calls())
+    # run-length helpers (the n_tokens! macro written as a function) are looked through
+    bt = IL.inlined(F, F.fn(BT), want=counts_runs, depth=1)
     d = FL.Defs(bt)
+    # which parameter of the emitter is the count: the end of the 0..n range it iterates
+    det = FL.Defs(et0)
+    count_arg = None
+    for b, t in et0.calls():
+        if (callee_def(t) or "").endswith("IntoIterator::into_iter"):
+            o = det.origin_op(t["args"][0])
+            if o.get("k") == "agg" and o["rv"]["adt"].endswith("ops::range::Range"):
+                hi = det.origin_op(o["rv"]["ops"][1])
+                if hi.get("k") == "arg":
+                    count_arg = hi["n"]
     ev = PM.EV
     dm = {n: dv for dv, n in F.discr_map(ev).items()}
     # the switch on the Event discriminant
@@ -356,10 +387,15 @@ def build_tree_rules(F, res):
 
     def classify(b, t):
         """(+1?, predicate fn, range ok) of an eat_token call"""
-        tup = d.origin_op(t["args"][1])
-        if tup.get("k") != "agg":
-            return None
-        n = d.origin_op(tup["rv"]["ops"][0])
+        if is_clos:
+            tup = d.origin_op(t["args"][1])
+            if tup.get("k") != "agg":
+                return None
+            n = d.origin_op(tup["rv"]["ops"][0])
+        else:
+            if count_arg is None:
+                return None
+            n = d.origin_op(t["args"][count_arg - 1])
         plus = 0
         base = n
         while base.get("k") == "field":
@@ -381,7 +417,7 @@ def build_tree_rules(F, res):
             s0 = d.origin_op(rng["rv"]["ops"][0])
             s1 = d.origin_op(rng["rv"]["ops"][1])
             rng_ok = (bt.debug_name(s0.get("l", -1)) == "pos" or s0.get("k") in ("multi",) and bt.debug_name(s0.get("l")) == "pos") and \
-                s1.get("k") == "call" and PM.short(callee(s1["t"])) == "Vec::len"
+                s1.get("k") == "call" and PM.short(callee(s1["t"]) or callee_def(s1["t"])).endswith("::len")
         cl = d.origin_op(tw["t"]["args"][1])
         pred = None
         if cl.get("k") == "agg" and "closure" in cl["rv"]:
@@ -390,9 +426,29 @@ def build_tree_rules(F, res):
                 cs = [callee(t2) for _, t2 in cf.calls() if (callee(t2) or "").startswith(SK + "::")]
                 if len(cs) == 1:
                     pred = cs[0]
+                elif not cs:
+                    # the predicate is a function pointer handed to a run-length helper: read it at the helper's call
+                    for idx in range(0, 6):
+                        pf, po = FL.upvar_origin(F, cl["rv"]["closure"], idx)
+                        if pf is None or po.get("k") != "arg":
+                            continue
+                        marks = [(b2, t2) for b2, t2 in bt.calls() if t2.get("inlined") == pf.path and bt.dominates(b2, n["bb"])]
+                        if not marks:
+                            continue
+                        b2, t2 = max(marks, key=lambda x: len(bt.dominators().get(x[0], ())))
+                        a = t2["args"][po["n"] - 1]
+                        kdef = (a.get("k") or {}).get("def") if isinstance(a.get("k"), dict) else None
+                        if kdef is None:
+                            ao = d.origin_op(a)
+                            if ao.get("k") == "const":
+                                kdef = (ao["c"] or {}).get("def") or ((ao["c"] or {}).get("fn") or {}).get("def")
+                            elif ao.get("k") == "rv" and ao["rv"]["k"] == "cast" and isinstance(ao["rv"]["op"].get("k"), dict):
+                                kdef = ao["rv"]["op"]["k"].get("def")
+                        if kdef and kdef.startswith(SK + "::"):
+                            pred = kdef
         return plus, pred, rng_ok
 
-    eats = [(b, t) for b, t in bt.calls() if callee(t) == EAT]
+    eats = [(b, t) for b, t in bt.calls() if callee(t) == EATP]
     res.floor("eat_token call sites in build_tree", len(eats), 6)
     region = {}
     for name, tgt in arm.items():
@@ -434,7 +490,7 @@ def build_tree_rules(F, res):
     # trivia predicates used in Open arms must also cover whitespace so no raw token is stranded before a node start:
     # not needed for losslessness (stranded trivia are flushed by the next Advance/final flush).
     # ---- L8 eat_token itself
-    et = F.fn(EAT)
+    et = et0
     de = FL.Defs(et)
     be = et.back_edges()
     toks = [(b, t) for b, t in et.calls() if (callee(t) or "").endswith("GreenNodeBuilder::token")]
@@ -465,7 +521,7 @@ def build_tree_rules(F, res):
             if o.get("k") == "agg" and o["rv"]["adt"].endswith("ops::range::Range"):
                 lo = de.origin_op(o["rv"]["ops"][0])
                 hi = de.origin_op(o["rv"]["ops"][1])
-                ok_n = lo.get("k") == "const" and str(lo["c"].get("bits")) == "0" and hi.get("k") == "arg" and hi["n"] == 2
+                ok_n = lo.get("k") == "const" and str(lo["c"].get("bits")) == "0" and hi.get("k") == "arg" and hi["n"] == (2 if is_clos else count_arg)
     res.ob("L8", "eat_token/n-iterations", "eat_token iterates exactly 0..n for the count it was given", ok_n, where=et.loc(),
            how="range 0..param" if ok_n else "iteration range not recognised")
     # token read at *pos; kind and text from that same token; text = src[range]
@@ -506,7 +562,7 @@ def build_tree_rules(F, res):
            ok_tok, where=et.loc(), how="def-use traced" if ok_tok else "shape not recognised")
     # n_tokens! predicates index the same vector by the scanned position (closure bodies)
     # the vector both closures read is tokens_raw moved out of self
-    tr = [e for e in __import__("lib.effects", fromlist=["x"]).field_effects(bt, PM.PA) if e["field"] == "tokens_raw"]
+    tr = [e for e in __import__("lib.effects", fromlist=["x"]).field_effects(F.fn(BT), PM.PA) if e["field"] == "tokens_raw"]
     res.ob("L8", "build_tree/uses-tokens_raw", "build_tree walks tokens_raw (the unfiltered list), moved out of the parser once",
            len(tr) == 1 and tr[0]["how"] == "move", where=bt.loc(), how=str([(e["how"], e["ln"]) for e in tr]))
 
